@@ -24,12 +24,18 @@ fn c15_error_counter_saturates() {
 #[kani::stub(core::fmt::Formatter::pad, pad_stub)]
 #[kani::stub(crossbeam_channel::Sender::try_send, chan::try_send_stub)]
 #[kani::stub(crossbeam_channel::Sender::send, chan::send_stub)]
+#[kani::stub(crossbeam_channel::Sender::is_full, chan::is_full_stub)]
+#[kani::stub(crossbeam_channel::Sender::is_empty, chan::is_empty_stub)]
+#[kani::stub(crossbeam_channel::Sender::len, chan::len_stub)]
 fn c15_write_accounting_lossy_and_blocking() {
     // the Sender is never used for real: try_send / send are the contract stub; it is forgotten, not dropped
     let s: Sender<Msg> = unsafe { core::mem::zeroed() };
     let old: usize = nd(); let lossy: bool = nd();
     let mut nb = NonBlocking { error_counter: ErrorCounter(Arc::new(AtomicUsize::new(old))), channel: s, is_lossy: lossy };
     let outcome: usize = nd(); kani::assume(outcome <= 2); chan::NEXT_SEND.store(outcome, VSeq);
+    // what the queue says about itself afterwards is unconstrained (other producers, the worker)
+    let full: usize = nd(); kani::assume(full <= 1); chan::NEXT_IS_FULL.store(full, VSeq);
+    let qlen: usize = nd(); chan::NEXT_LEN.store(qlen, VSeq);
     let buf: [u8; 3] = nd(); let n: usize = nd(); kani::assume(n <= 3);
     let via_write_all: bool = nd();
     let r = if via_write_all { nb.write_all(&buf[..n]).map(|_| n) } else { nb.write(&buf[..n]) };
